@@ -177,6 +177,34 @@ def defocus_2d_offcentre(size, param):
     return w / w.sum()
 
 
+def identify_psf_1d(name, taps):
+    """Documented PSFs (1-D) whose samples equal ``taps``: the *default* PSF_param is documented only as
+    "depends on PSF", so a default-parameter operator is accepted iff its taps are a member of the documented
+    family for SOME parameter.  Gauss / Moffat: the parameter is solved from the ratio of the two central taps,
+    then the whole PSF is rebuilt from the formula; out-of-focus: radii on a half-integer lattice (both centre
+    readings).  Returns the list of matching reference PSFs (empty = not in the family)."""
+    taps = np.asarray(taps, float)
+    s = taps.size
+    c = s // 2
+    name = name.lower()
+    out = []
+    if name in ("gauss", "moffat"):
+        if c + 1 >= s or not (taps[c] > 0) or not (0 < taps[c + 1] / taps[c] < 1):
+            return out
+        r = taps[c + 1] / taps[c]
+        par = math.sqrt(-0.5 / math.log(r)) if name == "gauss" else 1.0 / math.sqrt(1.0 / r - 1.0)
+        cand = [psf_1d(name, s, par)]
+    else:
+        cand = []
+        for j in range(1, 2 * s + 42):
+            cand.append(psf_1d("defocus", s, 0.5 * j))
+            cand.append(defocus_1d_offcentre(s, 0.5 * j))
+    for P in cand:
+        if P.shape == taps.shape and np.all(np.isfinite(P)) and float(np.max(np.abs(P - taps))) <= 1e-12:
+            out.append(P)
+    return out
+
+
 def custom_psf_1d(size, k=0):
     """Deterministic asymmetric 1-D PSF (dyadic entries, some NEGATIVE weights, unit sum is *not* required for a custom PSF)."""
     base = [1, 5, 2, 7, 3, 1, 4, 2, 6, 1, 3, 5, 2, 4, 1, 7, 2, 3]
@@ -263,6 +291,23 @@ def kl_matrix(N, num_modes=None, decay_rate=2.5, normalizer=12.0):
     return B
 
 
+def kl_full_matrix(N, std=1.0, cor_len=0.2, nu=3.0):
+    """KLExpansion_Full as documented:
+    f_K = std^2/pi [ sum_{i<N-1} c_i p_i sin(pi/N (i+1)(K+1/2)) + (-1)^K/2 c_{N-1} p_{N-1} ],
+    c_i = tau^g / (tau + i^2)^g,  tau = 1/cor_len^2,  g = nu + 1."""
+    tau = 1.0 / cor_len ** 2
+    g = nu + 1.0
+    B = np.zeros((N, N))
+    for K in range(N):
+        for i in range(N):
+            c = tau ** g / (tau + i ** 2) ** g
+            if i < N - 1:
+                B[K, i] = c * math.sin(math.pi / N * (i + 1) * (K + 0.5))
+            else:
+                B[K, i] = c * ((-1) ** K) / 2.0
+    return std ** 2 / math.pi * B
+
+
 def step_matrix(grid, n_steps):
     """Step i covers (x0 + i L/n, x0 + (i+1) L/n] (first step includes x0); membership with a rounding guard."""
     grid = np.asarray(grid, float)
@@ -294,6 +339,15 @@ def poisson_solution(kappa, rhs, dx):
             D[r, r - 1] -= 1.0
     D /= dx
     return np.linalg.solve(D.T @ np.diag(kappa) @ D, np.asarray(rhs, float))
+
+
+def poisson_node_readings(N, endpoint):
+    """Reasonable readings of "the N interior nodes of the grid with end-point `endpoint`" (the docstring does not
+    give them): uniform with mesh width endpoint/N or endpoint/(N+1), or N equispaced nodes from the first mesh
+    width up to (excluding) the end-point."""
+    L = float(endpoint)
+    k = np.arange(1, N + 1, dtype=float)
+    return [k * L / N, k * L / (N + 1), L / N + (k - 1) * (L - L / N) / N]
 
 
 def heat_final(u0, dx, time_steps, method="forward_euler"):
